@@ -78,7 +78,7 @@ pub fn run_with_config(arg: ScanArg, project: Result<ProjectConfig>) -> Result<(
     return run_scan(arg, printer, project);
   }
   if let Some(json) = arg.output.json {
-    let printer = JSONPrinter::stdout(json);
+    let printer = JSONPrinter::stdout(json).context(context);
     return run_scan(arg, printer, project);
   }
   let printer = ColoredPrinter::stdout(arg.output.color)
